@@ -307,13 +307,17 @@ def r05_5(rep, M, rid):
             sl = fl.slice(el, at)
             got = [c.func.attr for e in sl["exprs"] for c in ast.walk(e) if isinstance(c, ast.Call) and isinstance(c.func, ast.Attribute)]
             arith = [norm(x) for e in sl["exprs"] for x in ast.walk(e) if isinstance(x, (ast.BinOp, ast.UnaryOp, ast.IfExp))]
+            # a selection / reordering of the rows (atoms) is a modification too: the dataset's per-atom arrays follow the order spglib was given
+            arith += [norm(x) for x in ast.walk(el) if isinstance(x, ast.Subscript)]
+            arith += [norm(x) for e in sl["exprs"] for x in ast.walk(e) if isinstance(x, ast.Subscript) and not isinstance(x.slice, ast.Constant)]
             defs = fl.rd[at].get(el.id, ()) if isinstance(el, ast.Name) else ()
             if getter in got and not arith and len(defs) <= 1:
                 rep.ok(rid, f"spglib description: {getter}() of the analysed system, unmodified")
             else:
                 rep.violation(rid, f"_system_to_spglib_description: {getter.replace('get_', '')}", f"`{norm(el)}` is not the plain {getter}() of the analysed "
                               f"system ({'modified by ' + arith[0] if arith else 'conditionally redefined' if len(defs) > 1 else 'source ' + str(got)}): changing the "
-                              "cell without the coordinates (or vice versa) hands spglib another crystal, e.g. the enantiomorph", M.where(fq, el))
+                              "cell without the coordinates (or vice versa) hands spglib another crystal, e.g. the enantiomorph; reordering the atoms makes the "
+                              "dataset's per-atom letters / orbits / mappings refer to another atom order than the original system", M.where(fq, el))
 
 
 def r05_5b(rep, M, rid):
